@@ -249,11 +249,11 @@ def correspondence(c, tag, n_traces, steps):
 
 # ---------------------------------------------------------------------------------------------
 MONITORS = ["corr", "c12_one_timer", "c02_save_before_emit", "c02_one_signature_per_lifetime",
-            "c02_one_signature_ever", "c08_targets", "c08_rounds", "c08_finalize", "c08_once_per_round",
-            "sm_responsive"]
+            "c02_one_signature_ever", "c02_one_emission_ever", "c08_targets", "c08_rounds", "c08_finalize", "c08_once_per_round",
+            "sm_responsive", "c08_stale_view_inert"]
 
 EVAL_HEADER = """From Coq Require Import List NArith String Bool.
-From GV Require Import Base.Ints Gen.Math Gen.StepSM Model.StateMachine Model.SMWire Model.SMWalk Monitors.SMm.
+From GV Require Import Base.Ints Gen.Math Gen.StepSM Model.StateMachine Model.SMWire Model.SMWalk Model.SMScenarios Monitors.SMm.
 Import ListNotations. Local Open Scope N_scope.
 Fixpoint ll_eqb (a b : list (list N)) : bool :=
   match a, b with [], [] => true | x :: a', y :: b' => leqb x y && ll_eqb a' b' | _, _ => false end.
@@ -269,9 +269,9 @@ Definition judge (es : list event) (sg : bool) (impl : list (list (list N) * lis
   let t : list obs := combine (map enc_event es) (map (fun p => fst p ++ snd p) impl) in
   let tm : list obs := combine (map enc_event es) (map (fun p => fst p ++ snd p) model) in
   map nbb [outs_eqb model impl; c12_one_timer t; c02_save_before_emit t; c02_one_signature_per_lifetime t;
-           c02_one_signature_ever t; c08_targets t; c08_rounds t; c08_finalize t; c08_once_per_round t; sm_responsive t]
+           c02_one_signature_ever t; c02_one_emission_ever t; c08_targets t; c08_rounds t; c08_finalize t; c08_once_per_round t; sm_responsive t; c08_stale_view_inert t]
   ++ map nbb [c12_one_timer tm; c02_save_before_emit tm; c02_one_signature_per_lifetime tm;
-              c02_one_signature_ever tm; c08_targets tm; c08_rounds tm; c08_finalize tm; c08_once_per_round tm; sm_responsive tm].
+              c02_one_signature_ever tm; c02_one_emission_ever tm; c08_targets tm; c08_rounds tm; c08_finalize tm; c08_once_per_round tm; sm_responsive tm; c08_stale_view_inert tm].
 """
 
 
@@ -279,14 +279,17 @@ def coq_impl(impl):
     return "[" + "; ".join("(%s, %s)" % (coq_ll(a), coq_ll(b)) for a, b in impl) + "]"
 
 
-def judge_walked(c, tag, cases, impls):
+def judge_walked(c, tag, cases, impls, events_of=None):
     """coqc run B: correspondence + monitors on the implementation's observations (and on the model's).
-    Returns list of dicts name->bool (model monitor values under 'model:<name>')."""
+    Returns list of dicts name->bool (model monitor values under 'model:<name>').
+    events_of(k, sg, cs): Gallina expression of the k-th history's events (default: the model walk)."""
     res = []
     shard = 40
+    if events_of is None:
+        events_of = lambda k, sg, cs: "(gen_trace %s %s)" % ("true" if sg else "false", coq_list(cs))
     for si in range(0, len(cases), shard):
         body = EVAL_HEADER + "Definition res := Eval vm_compute in [\n%s].\nPrint res.\n" % ";\n".join(
-            "judge (gen_trace %s %s) %s %s" % ("true" if sg else "false", coq_list(cs), "true" if sg else "false", coq_impl(impls[si + k]))
+            "judge %s %s %s" % (events_of(si + k, sg, cs), "true" if sg else "false", coq_impl(impls[si + k]))
             for k, (sg, cs) in enumerate(cases[si:si + shard]))
         ok, txt = c.coq_eval("%s_judge_%d" % (tag, si // shard), body)
         val = parse_coq_value(txt, "res") if ok else None
@@ -348,6 +351,42 @@ def run_witnesses(c, binary, pid):
     c.coverage["witnesses_reproduced"] = seen
 
 
+def run_scenarios(c, binary, tag, clauses, classify):
+    """The scripted histories of Model/SMScenarios.v: model outputs computed in coqc, the same events run on the real
+    state machine, outputs compared event by event, monitors evaluated on the implementation's observations."""
+    body = HEADER.replace("Model.SMWalk.", "Model.SMWalk Model.SMScenarios.") + \
+        "Definition rep := Eval vm_compute in scenario_report.\nPrint rep.\n"
+    ok, txt = c.coq_eval("sm_scen_%s" % tag, body)
+    traces = parse_coq_value(txt, "rep") if ok else None
+    if traces is None:
+        c.fail_obligation("scenario-eval", txt[-1500:])
+        return
+    cases = [(1, [])] * len(traces)
+    impl, _ = run_harness(c, binary, cases, traces)
+    flags = judge_walked(c, tag + "_scen", cases, impl, events_of=lambda k, sg, cs: "(nth %d scenarios [])" % k)
+    if flags is None:
+        return
+    bad = []
+    for i, fl in enumerate(flags):
+        d = first_diff(traces[i], impl[i])
+        if not fl["corr"] or d is not None:
+            bad.append((i, d))
+        for name in clauses:
+            if not fl[name]:
+                key = classify(name, [e for e, _ in traces[i]], fl)
+                c.report(key, "monitor %s is false on the implementation's observations of scripted history %d (Model/SMScenarios.v)" % (name, i),
+                         {"monitor": name, "scenario": i, "model_monitor_value": fl.get("model:" + name), "how": "bin/h_sm < replay input",
+                          "harness_input": harness_input(1, traces[i]), "trace": render(traces[i], impl[i])})
+    if bad and not any(v[3] for v in c.violations):
+        i, d = bad[0]
+        d = 0 if d is None else d
+        c.fail_obligation("correspondence Model/StateMachine.v vs tm/tmengine/internal/tmstate/statemachine.go (scripted histories)",
+                          "model and real state machine differ on scripted histories %s; first: scenario %d event %d" % ([b[0] for b in bad], i, d),
+                          {"harness_input": harness_input(1, traces[i], d), "how": "bin/h_sm < replay input",
+                           "trace": render(traces[i], impl[i], d)[-8:]})
+    c.coverage["scripted_histories"] = {"run": len(traces), "events": sum(len(t) for t in traces), "disagreements": len(bad)}
+
+
 def walked(c, pid, binary, tag, n_traces, steps, clauses, classify):
     """Full correspondence + monitor evaluation. `clauses`: monitor names that decide property `pid`;
     `classify(name, trace_events) -> key` gives the finding key of a failing clause."""
@@ -380,7 +419,8 @@ def walked(c, pid, binary, tag, n_traces, steps, clauses, classify):
                          {"monitor": name, "model_monitor_value": fl.get("model:" + name), "signer": cases[i][0],
                           "how": "bin/h_sm < replay input", "harness_input": harness_input(cases[i][0], traces[i]),
                           "trace": render(traces[i], impl[i])})
-    monitor_failed = any(not fl[n] for fl in flags for n in clauses)
+    # only a violation with a concrete failing input (known findings excluded) stands in for the broken correspondence
+    monitor_failed = any(v[3] for v in c.violations)
     if bad_corr and not monitor_failed:
         i, d = bad_corr[0]
         d = 0 if d is None else d
